@@ -3,7 +3,7 @@
    All statements are about Gen/Sched.v, regenerated from /repo's schedulers on every run. *)
 From Coq Require Import ZArith Reals List.
 From OV Require Import Base.Num Base.NumR Base.NumZ Base.Py Model.SchedState Gen.Sched Proofs.SchedP Proofs.SchedR.
-From OV Require Import Model.OptimState Model.OptimRef Gen.Optim Proofs.OptimSM Proofs.OptimTrace Proofs.OptimMore.
+From OV Require Import Model.OptimState Model.OptimRef Gen.Optim Proofs.OptimSM Proofs.OptimTrace Proofs.OptimMore Model.ClipNum Proofs.ClipR.
 Import ListNotations.
 
 (* construction (last_epoch = -1) leaves the scheduled value unchanged, k = 0 *)
@@ -101,6 +101,17 @@ Theorem C17_scheduled_value_is_used {T} {N : Num T} (neqb_sound : forall a b : T
 Proof. exact (scheduled_value_used neqb_sound s nm' c'). Qed.
 
 (* non-vacuity: a concrete scheduler meeting the hypotheses, run on the Z instance *)
+(* per-layer clipping: the scheduler (or anyone) changes the scalar max_grad_norm, which scales the noise; the bounds every tensor is
+   clipped with (generated pl_bounds_in_force) are the configured ones rescaled so that their joint norm IS the value in force, they stay
+   non-negative, and they are the configured bounds as long as max_grad_norm is untouched *)
+Theorem C17_perlayer_bounds_follow_value_in_force (mgn : R) (Cs : list R) : (0 <= mgn)%R -> (0 < nnorm2 Cs)%R ->
+  nnorm2 (pl_bounds_in_force mgn Cs) = mgn /\
+  (Forall (fun c => 0 <= c)%R Cs -> Forall (fun c => 0 <= c)%R (pl_bounds_in_force mgn Cs)) /\
+  pl_bounds_in_force (nnorm2 Cs) Cs = Cs.
+Proof.
+  intros Hm Hn. destruct (pl_bounds_in_force_norm mgn Cs Hm Hn) as (A & B). split; [exact A|]. split; [exact B|]. exact (pl_bounds_unchanged Cs Hn).
+Qed.
+
 Example C17_nonvacuous :
   let s1 := mkss 0%Z 3%Z 2%Z 5%Z (fun k => k) 5%Z in
   f_last_epoch s1 = 0%Z /\ (0 < f_step_size s1)%Z /\
@@ -122,6 +133,7 @@ Print Assumptions C17_clip_lambda_closed_form.
 Print Assumptions C17_iter_is_power_r.
 Print Assumptions C17_iter_is_power_l.
 Print Assumptions C17_scheduled_value_is_used.
+Print Assumptions C17_perlayer_bounds_follow_value_in_force.
 Print Assumptions C17_restore_exact_partial.
 Print Assumptions C17_clip_restore_exact_partial.
 Print Assumptions C17_lambda_restore_next.
